@@ -249,11 +249,35 @@ func word(rnd *rand.Rand, n int) string {
 	return string(b)
 }
 
+// wordAny: n bytes without a space, drawn from one of three alphabets: lower-case letters, multi-byte UTF-8, or
+// arbitrary bytes above 0x7f that are not valid UTF-8 (HTTP header values may carry any of them; the budget of the
+// identity string is in bytes)
+func wordAny(rnd *rand.Rand, n int) string {
+	switch rnd.Intn(4) {
+	case 0:
+		b := make([]byte, n)
+		for i := range b {
+			b[i] = byte(0xf8 + rnd.Intn(8)) // never valid in UTF-8
+		}
+		return string(b)
+	case 1:
+		b := make([]byte, 0, n)
+		for len(b)+2 <= n {
+			b = append(b, 0xc3, byte(0xa0+rnd.Intn(16))) // two-byte letters
+		}
+		for len(b) < n {
+			b = append(b, 'x')
+		}
+		return string(b)
+	}
+	return word(rnd, n)
+}
+
 func checkRelease(rnd *rand.Rand, c *Case) string {
 	ua := word(rnd, c.C.UA)
 	var feats []string
 	for _, l := range c.C.Feats {
-		feats = append(feats, word(rnd, l))
+		feats = append(feats, wordAny(rnd, l))
 	}
 	req, _ := http.NewRequest("GET", "http://x/", nil)
 	if ua != "" {
